@@ -77,6 +77,29 @@ def check_mixed(ctx, case):
     l = run(text, False, output_mode=mode)
     ctx.obs["silent_loud_pairs"] += 1
     ctx.obs["unsupported_statements_inserted"] += n_uns if not case.get("ignored_only") else 0
+    # the same two settings handed over through parse_from_file(parser_settings=...) must behave exactly like the constructor flag
+    if case.get("via_file"):
+        import os
+        import tempfile
+        from simple_ddl_parser import parse_from_file
+        fd, path = tempfile.mkstemp(suffix=".sql", prefix="vf_c16_")
+        try:
+            with os.fdopen(fd, "w") as f:
+                f.write(text)
+            for silent, ref in ((True, q), (False, l)):
+                try:
+                    fr = ("ok", parse_from_file(path, parser_settings={"silent": silent}, output_mode=mode))
+                except Exception as e:
+                    fr = ("exc", type(e).__name__)
+                ctx.obs["parse_from_file_settings_checks"] += 1
+                same = (fr[0] == ref[0] == "ok" and fr[1] == ref[1]) or (fr[0] == ref[0] == "exc" and fr[1] == ref[1])
+                if not same:
+                    ctx.violation("parse_from_file_ignores_silent_setting", dict(case, script=text), {"silent": silent, "via_file": short(fr, 200), "via_constructor": short(ref[:2], 200)})
+        finally:
+            try:
+                os.remove(path)
+            except OSError:
+                pass
     # silent: no exception, no entity from the unsupported statements, neighbours untouched
     if q[0] != "ok":
         ctx.violation("silent_raises", dict(case, script=text), {"exception": q[1], "message": q[3]}, kf=kf if case.get("feature") == "lexer_error" else None)
@@ -176,7 +199,8 @@ def run_shard(ctx):
         inserts = {}
         for _ in range(rng.choice([0, 1, 1, 2, 3])):
             inserts.setdefault(str(rng.randint(0, n)), []).append(rng.choice(uns)[1])
-        case = {"gen": "random", "groups": groups, "inserts": inserts, "mode": rng.choice(["sql", "hql", "bigquery", "oracle", "snowflake"])}
+        case = {"gen": "random", "groups": groups, "inserts": inserts, "mode": rng.choice(["sql", "hql", "bigquery", "oracle", "snowflake"]),
+                "via_file": j % 6 == 0}
         check_case(ctx, case)
         if j == 0:
             ctx.sample({"groups": groups, "inserts": inserts})
